@@ -37,7 +37,7 @@ RULE = ('schedules = lists of thread ids consumed at every traced source line of
         'selection, lazily materialised timestamps, membership/assignment), _Pool (get/put and context manager), '
         'S3ChunkStore.get_chunk on a local endpoint and the vis/weights/flags indexers of a v4 data set, whose locks '
         'are replaced by instrumented ones; a case is one (site, schedule); non-trivial when at least two threads '
-        'overlap inside the traced code; distinct by (site, executed line trace).  Loads: 3 v4 fixtures (odd sizes, '
+        'overlap inside the traced code; distinct by (site, executed line trace).  Loads: 4 v4 fixtures (odd sizes, applycal G/B/K, '
         'ragged chunks, power-scaled weights, lost chunks) x {synchronous, threads with 1,2,3,4,8,16 workers, model '
         'scheduler with policies random/greedy/fifo/lifo/reverse x early/late execution x 1..5 workers}; a case is '
         '(fixture, index, scheduler, event list)')
